@@ -393,10 +393,10 @@ theorem pathT_cache_ok (limit level : Nat) (s : PathTState) :
 
 theorem ptrepr_cache (s : PathTState) (L : List Route) (limit level : Nat) (h : PTRepr T Good s L) :
     PTRepr T Good (PathT.cache T limit level s).1 L := by
-  obtain ⟨t', n, _, heq, _, hs⟩ := pathT_cache_ok T limit level s
+  obtain ⟨t', n, h1, heq, _, hs⟩ := pathT_cache_ok T limit level s
   rw [heq]
   have hc : t'.contents = s.tree.contents := by rw [← contents_strip, hs, contents_strip]
-  have hi : t'.inv T.icPath = s.tree.inv T.icPath := by rw [← inv_strip, hs, inv_strip]
+  have hi : t'.inv T.icPath = s.tree.inv T.icPath := inv_of_treeCache h1 T.icPath
   refine ⟨h.len, by rw [hi]; exact h.inv, by intro e he; rw [hc] at he; exact h.dom e he, ?_, h.statics⟩
   unfold entriesOf
   simp only [hc]
